@@ -23,7 +23,8 @@ N_QUICK, N_THOROUGH = 250, 2500
 RULE = ("case = (violated condition from the C06 grammar on a require, ensure or class invariant, optionally naming _ARGS/_KWARGS; argument values with "
         "address-free reprs incl. sets of ints and of strings, strings up to 300 and lists up to 60 elements; the "
         "contract's a_repr = the default or a reprlib.Repr with drawn limits (maxstring 5..40, maxlist/maxset/maxdict/"
-        "maxtuple 1..8, maxlevel 1..3); the function also receives a function, a class and a module as arguments). "
+        "maxtuple 1..8, maxlevel 1..3, maxlong 6..40) or a Repr SUB-CLASS with its own repr_int/repr_bool/repr_NoneType/"
+        "repr_float; in a third of the cases integer arguments with 14..51 digits; the function also receives a function, a class and a module as arguments). "
         "Checked: (1) identical message for every permutation of 4 keyword arguments and for 0..3 leading positional "
         "arguments vs. keywords; (2) identical on three repetitions interleaved with an unrelated violation; (3) "
         "identical text from worker interpreters with PYTHONHASHSEED 1, 4242 and random (this process runs with 0); "
@@ -41,10 +42,24 @@ KNOWN = {}
 LIMIT_FIELDS = ["maxstring", "maxlist", "maxset", "maxdict", "maxtuple", "maxlevel", "maxother"]
 
 
+SUBCLASS_SRC = ("class OwnRepr(reprlib.Repr):\n"
+                "    # a user's Repr with renderings of its own for the plainest values\n"
+                "    def repr_int(self, x, level):\n        return 'i<%s>' % (x % 1000)\n"
+                "    def repr_bool(self, x, level):\n        return 'yes' if x else 'no'\n"
+                "    def repr_NoneType(self, x, level):\n        return 'nil'\n"
+                "    def repr_float(self, x, level):\n        return '%.1f' % x\n")
+
+
 def make_arepr(limits):
     if not limits:
         return None
-    r = reprlib.Repr()
+    limits = dict(limits)
+    if limits.pop("_subclass", 0):
+        g = {"reprlib": reprlib}
+        exec(SUBCLASS_SRC, g)
+        r = g["OwnRepr"]()
+    else:
+        r = reprlib.Repr()
     for k, v in limits.items():
         setattr(r, k, v)
     return r
@@ -53,7 +68,12 @@ def make_arepr(limits):
 def prelude_for(limits):
     out = "import reprlib\n"
     if limits:
-        out += "AR = reprlib.Repr()\n" + "".join("AR.%s = %d\n" % (k, v) for k, v in sorted(limits.items()))
+        limits = dict(limits)
+        if limits.pop("_subclass", 0):
+            out += SUBCLASS_SRC + "AR = OwnRepr()\n"
+        else:
+            out += "AR = reprlib.Repr()\n"
+        out += "".join("AR.%s = %d\n" % (k, v) for k, v in sorted(limits.items()))
     out += ("@icontract.require(lambda q: q > 0, 'unrelated')\n"
             "def unrelated(q):\n    return q\n")
     return out
@@ -266,15 +286,22 @@ def st_case(draw):
     if draw(st.booleans()):
         limits = {"maxstring": draw(st.integers(5, 40)), "maxlist": draw(st.integers(1, 8)), "maxset": draw(st.integers(1, 8)),
                   "maxdict": draw(st.integers(1, 8)), "maxtuple": draw(st.integers(1, 8)), "maxlevel": draw(st.integers(1, 3)),
-                  "maxother": draw(st.integers(10, 60))}
+                  "maxother": draw(st.integers(10, 60)), "maxlong": draw(st.integers(6, 40))}
+        if draw(st.integers(0, 3)) == 0:
+            limits["_subclass"] = 1  # a Repr sub-class that renders int/bool/None/float in its own way
     names = list(GR.ARGS) + ["Y"]
     perm = draw(st.lists(st.sampled_from(names), min_size=2, max_size=4, unique=True))
     named = [n for n in ("_ARGS", "_KWARGS") if draw(st.integers(0, 5)) == 0]
     named_use = draw(st.sampled_from(["body", "signature"]))
     # _ARGS/_KWARGS are placeholders of function contracts; the other cases rotate over the three contract kinds
     role = "require" if named else draw(st.sampled_from(["require", "require", "ensure", "invariant"]))
+    inputs = draw(GR.st_inputs(long_values=draw(st.booleans())))
+    if draw(st.integers(0, 2)) == 0:
+        # integers with more digits than maxlong allows (40 by default)
+        inputs["x"] = draw(st.sampled_from([7 ** 60, -(3 ** 90), 10 ** 41, 12345678901234]))
+        inputs["Y"] = draw(st.sampled_from([-(7 ** 55), 10 ** 45, 7]))
     return {"text": cond["text"], "params": cond["params"], "features": cond["features"], "role": role,
-            "async": role != "invariant" and draw(st.integers(0, 4)) == 0, "inputs": draw(GR.st_inputs(long_values=draw(st.booleans()))),
+            "async": role != "invariant" and draw(st.integers(0, 4)) == 0, "inputs": inputs,
             "limits": limits, "perm": perm, "named": named, "named_use": named_use, "npos": draw(st.integers(1, 3))}
 
 
